@@ -574,6 +574,8 @@ func (e *Env) evalCall(n *ast.CallExpr) Term {
 			e.fail(n, "%s(%d, %d): index out of range", name, k, i)
 		}
 		return list[i]
+	case "allocatedid":
+		return lt(e.eval(n.Args[0]), e.st.alloc)
 	case "freshid":
 		return ge(e.eval(n.Args[0]), e.allocLo)
 	case "itercount":
@@ -1027,11 +1029,15 @@ func (st *State) pureMethod(e *Env, n *ast.CallExpr, f *ast.SelectorExpr, recvT 
 
 func (st *State) methodSymbol(e *Env, name string, sorts []Sort, rs Sort, ifaceT types.Type) string {
 	prog := st.ex.prog
+	st.nestedM = true
 	rel := prog.relevantFams(st.ex, name, sorts, rs, ifaceT)
 	var vers []string
+	verOf := map[string]string{}
 	for _, fam := range rel {
 		sym := st.symIn(e.cur, fam)
-		vers = append(vers, sym[strings.LastIndex(sym, "@")+1:])
+		v := sym[strings.LastIndex(sym, "@")+1:]
+		vers = append(vers, v)
+		verOf[fam] = v
 	}
 	sym := "M." + name + "." + shortTypeName(ifaceT)
 	for _, a := range sorts[1:] {
@@ -1045,6 +1051,14 @@ func (st *State) methodSymbol(e *Env, name string, sorts []Sort, rs Sort, ifaceT
 		return sym
 	}
 	st.sc.declFun(sym, sorts, rs)
+	base := "M." + name + "." + shortTypeName(ifaceT) + "/" + string(rs) + fmt.Sprint(sorts)
+	prev := st.msyms[base]
+	type bridgeT struct {
+		tid  int
+		fams []string
+		ok   bool
+	}
+	var bridges []bridgeT
 	var known []Term
 	st.sc.nfresh++
 	iv := Term{fmt.Sprintf("i!l%d", st.sc.nfresh), SIface}
@@ -1060,6 +1074,61 @@ func (st *State) methodSymbol(e *Env, name string, sorts []Sort, rs Sort, ifaceT
 		tid := st.u().typeID(rt)
 		known = append(known, eq(ifType(iv), intLit(int64(tid))))
 		st.emitMethodLink(e, pf, sym, rs, rt, tid)
+		df, nested := prog.defFamilies(st.ex, pf, rs, rt)
+		bridges = append(bridges, bridgeT{tid: tid, fams: df, ok: !nested})
+	}
+	// version bridges: receivers whose definition reads nothing that changed between an earlier
+	// symbol of this method and the new one have the same value under both (a consequence of the
+	// link axioms, stated directly so that the solver need not unfold the definitions)
+	{
+		argB := []string{fmt.Sprintf("(%s Iface)", iv.S)}
+		callA := []Term{iv}
+		for _, s := range sorts[1:] {
+			st.sc.nfresh++
+			a := Term{fmt.Sprintf("a!b%d", st.sc.nfresh), s}
+			argB = append(argB, fmt.Sprintf("(%s %s)", a.S, s))
+			callA = append(callA, a)
+		}
+		start := 0
+		if len(prev) > 2 {
+			start = len(prev) - 2
+		}
+		for _, pv := range prev[start:] {
+			var conds []Term
+			for _, b := range bridges {
+				if !b.ok {
+					continue
+				}
+				same := true
+				for _, f := range b.fams {
+					if pv.vers[f] != verOf[f] {
+						same = false
+					}
+				}
+				if same {
+					conds = append(conds, eq(ifType(iv), intLit(int64(b.tid))))
+				}
+			}
+			// dynamic types without a definition: same default / same foreign family version
+			{
+				xn := "X." + name + "." + shortTypeName(ifaceT) + "." + string(rs)
+				for _, a := range sorts[1:] {
+					xn += "." + string(a)
+				}
+				if pv.vers[xn] == verOf[xn] && len(known) > 0 {
+					conds = append(conds, not(or(known...)))
+				}
+			}
+			if len(conds) == 0 {
+				continue
+			}
+			l, r := app(rs, sym, callA...), app(rs, pv.sym, callA...)
+			st.sc.emit("(assert (forall (%s) (! (=> %s (= %s %s)) :pattern (%s))))", strings.Join(argB, " "), or(conds...).S, l.S, r.S, l.S)
+		}
+		if st.msyms == nil {
+			st.msyms = map[string][]msymRec{}
+		}
+		st.msyms[base] = append(prev, msymRec{sym: sym, vers: verOf})
 	}
 	// dynamic types without a definition: the declared default of a virtual function, if any
 	var dflt *PureFunc
@@ -1103,6 +1172,43 @@ func (st *State) methodSymbol(e *Env, name string, sorts []Sort, rs Sort, ifaceT
 }
 
 // relevantFams: the heap families on which the value of pure method `name` depends
+// defFamilies: the heap families the definition pf reads; nested=true when the body itself calls a
+// pure interface method (then it may depend on everything that method depends on)
+func (p *Program) defFamilies(ex *Exec, pf *PureFunc, rs Sort, rt types.Type) (fams []string, nested bool) {
+	if p.defFamCache == nil {
+		p.defFamCache = map[string][]string{}
+		p.defNested = map[string]bool{}
+	}
+	key := pf.PkgPath + "." + pf.FnName
+	if f, ok := p.defFamCache[key]; ok {
+		return f, p.defNested[key]
+	}
+	if p.relBusy == nil {
+		p.relBusy = map[string]bool{}
+	}
+	if p.relBusy["def:"+key] {
+		return nil, true
+	}
+	p.relBusy["def:"+key] = true
+	defer delete(p.relBusy, "def:"+key)
+	sc := &State{ex: ex, sc: newScript(p.Universe), vals: map[ssa.Value]Term{}, locs: map[ssa.Value]Loc{}, tuples: map[ssa.Value][]Term{}, iters: map[ssa.Value]*MapIter{}, heap: map[string]string{}, fams: map[string]*Family{}, ghost: map[string]Term{}, sliceBase: map[string]sliceBaseInfo{}}
+	sc.entry = map[string]string{}
+	sc.alloc0 = sc.sc.fresh("alloc0", SInt)
+	sc.alloc = sc.alloc0
+	se := &Env{st: sc, vars: map[string]BVal{}, cur: sc.heap, old: sc.heap, allocLo: sc.alloc0}
+	func() {
+		defer func() { recover() }()
+		sc.emitMethodLink(se, pf, "M.scratch", rs, rt, 1)
+	}()
+	for fam := range sc.fams {
+		fams = append(fams, fam)
+	}
+	sort.Strings(fams)
+	p.defFamCache[key] = fams
+	p.defNested[key] = sc.nestedM
+	return fams, sc.nestedM
+}
+
 func implementsIface(t types.Type, ifaceT types.Type) bool {
 	it, ok := ifaceT.Underlying().(*types.Interface)
 	if !ok {
